@@ -286,7 +286,7 @@ impl Parser {
                     "Cow" => match &*a(0) {
                         Ty::Prim(Prim::Str) => Ty::CowStr,
                         Ty::Vec(u) if **u == Ty::Prim(Prim::U8) => Ty::CowBytes,
-                        other => panic!("unsupported Cow<{other:?}>"),
+                        other => Ty::Cow(Box::new(other.clone())),
                     },
                     "BTreeMap" => Ty::BTreeMap(a(0), a(1)),
                     "BTreeSet" => Ty::BTreeSet(a(0)),
@@ -406,6 +406,7 @@ fn constructors_of(ty: &Ty, out: &mut BTreeSet<String>) {
         | Ty::Range(t)
         | Ty::RangeInclusive(t)
         | Ty::Compact(t)
+        | Ty::Cow(t)
         | Ty::Phantom(t) => constructors_of(t, out),
         Ty::BitVecG(a, b) => {
             constructors_of(a, out);
